@@ -134,7 +134,7 @@ func (e *Engine) verifyFuncOpts(key string, o RunOpts) (fr *FuncResult) {
 	}
 	ct := e.contracts[key]
 	vc := &VC{S: newScript(), ls: newLayouts(), mapFams: map[string]*mapFam{}, nonNil: map[string]bool{},
-		mem: map[string]*memNode{}, allocP: map[string][]string{}, bornLt: map[string]string{}, isAlloc: map[string]bool{}, allocAfter: map[string]string{}, distinct: map[[2]string]bool{}}
+		mem: map[string]*memNode{}, allocP: map[string][]string{}, bornLt: map[string]string{}, isAlloc: map[string]bool{}, allocAfter: map[string]string{}, distinct: map[[2]string]bool{}, escaped: map[string]bool{}}
 	fr.VC = vc
 	x := &Exec{eng: e, vc: vc, top: fn, topC: ct, maxDepth: maxDepth, nonNil: vc.nonNil, over: o.Over, opaque: o.Opaque, loopSpecs: o.Loops, noModular: o.NoModular}
 	fr.Exec = x
